@@ -43,6 +43,7 @@ func NewNames() *Names {
 	n := &Names{accts: map[string]*Acct{}, exts: map[string]*ExtKey{}, cons: map[string]*ed25519.PrivKey{},
 		rev: map[string]string{}, txh: map[string]string{}}
 	n.rev[strings.ToLower(mhubtypes.TempAddress.String())] = "tmp"
+	n.rev["0x0000000000000000000000000000000000000000"] = "zero"
 	return n
 }
 
@@ -132,6 +133,12 @@ func (n *Names) ExtString(name string) string {
 	}
 	if strings.HasPrefix(name, "0x") {
 		return name
+	}
+	if name == "zero" {
+		return "0x0000000000000000000000000000000000000000"
+	}
+	if name == "bad" {
+		return "0xnotanaddress"
 	}
 	// hub accounts used as external receivers (destination chain "hub"): 0x + hex of the account bytes
 	if a, ok := n.accts[name]; ok {
